@@ -13,7 +13,9 @@ HOOK_COMMITS = ["f98da77", "3658628"]
 PENDING = {}
 
 PENDING_TEXT = {
-    "C04": ["ShapeVerif.accept_no_diagnostics", "ShapeVerif.unchecked_false", "ShapeVerif.checked_iff",
+    "C04": ["ShapeVerif.accepted_is_json", "ShapeVerif.sources_accepted_are_json", "ShapeVerif.checked_ok_is_json",
+            "ShapeVerif.accept_sound", "ShapeVerif.tokenize_sound", "ShapeVerif.rules_sound",
+            "ShapeVerif.accept_no_diagnostics", "ShapeVerif.unchecked_false", "ShapeVerif.checked_iff",
             "ShapeVerif.sources_accept"],
     "C05": ["ShapeVerif.fromStr_total", "ShapeVerif.span_faithful", "ShapeVerif.entry_points_total",
             "ShapeVerif.sources_span_faithful", "ShapeVerif.tokenize_ok", "ShapeVerif.parse_leaves",
@@ -176,14 +178,21 @@ PROPS = {
         "level_note": "Trusted: Lean kernel; models of subset.rs, merger.rs, shape/mod.rs tied by differential testing; text layer via the reference parser until C04.",
     },
     "C04": {
-        "module": "ShapeVerif.Props.C04",
+        "module": "ShapeVerif.Props.C04Sound",
+        "extra_modules": ["ShapeVerif.Props.C04"],
         "theorems": PENDING_TEXT["C04"],
-        "statements": {},
-        "partial": ["see DESIGN §5 C04: what is proved about the text layer and what is only compared"],
-        "rule": "from_str (and is_superset_checked / is_superset / from_sources on a subset) on: every string of length <= 3 (thorough 4) over a 29-character JSON alphabet, every token string of length <= 5 (thorough 6) over 13 lexemes, valid documents in four formattings with every prefix, deletion, substitution and insertion, escapes incl. surrogate pairs, nesting 200..300 around the limit. Oracle: accepted iff the independent RFC 8259 parser (Ref/Rfc8259.lean) accepts, depth <= 256 and no conflicting duplicate member names. Non-trivial = text with a container or an error.",
+        "statements": {
+            "accepted_is_json": "∀ src s, fromStr src = ok s → ∃ toks d, JsonTextVia src toks d ∧ depthOk (toks.map kind) ∧ inferDoc d = ok s — where JsonTextVia (Ref/JsonText.lean) says: toks cut src into lexemes each valid per RFC 8259 (structural characters, literal names, number per §6 = Rfc.number, string per §7 = Rfc.stringBody, whitespace runs) and the non-whitespace lexemes derive `value` in the RFC's token grammar (Ref/TokenGrammar.lean: value/object/member/array)",
+            "accept_sound": "token level: accepted ⇒ the lexer reported nothing and the non-skip tokens derive `value`, the shape being inferDoc of the derived document",
+            "rules_sound": "the six mutually recursive functions of the lelwel-generated recovering parser, in states where nothing has been reported yet: a run that reports nothing has consumed exactly a phrase of the token grammar and built a node that parse_cst evaluates to inferDoc of the phrase's document",
+            "tokenize_sound": "without lexer diagnostics the tokens tile the text with valid lexemes and no prefix has more than 256 brackets open",
+        },
+        "partial": ["proved: the 'only if' half for all strings (accepted_is_json, and for from_sources / is_superset_checked), plus unchecked_false / checked_iff / sources_accept. The 'if' half (every JSON text within the depth bound and without conflicting duplicate names is accepted) is not yet a theorem; it is tested: the independent recursive-descent parser Ref/Rfc8259.lean must accept exactly the texts the implementation accepts, on every generated string",
+                    "the specification used by the theorem is the declarative two-level grammar (JsonTextVia); the executable reference parser used by the oracle is Rfc.parse; their equivalence is not proved (both are short and written from the RFC)"],
+        "rule": "from_str (and is_superset_checked / is_superset / from_sources on a subset) on: every string of length <= 3 (thorough 4) over a 29-character JSON alphabet, every token string of length <= 5 (thorough 6) over 13 lexemes, valid documents in four formattings with every prefix, deletion, substitution and insertion, escapes incl. surrogate pairs, nesting 200..300 around the limit, asymmetric bracket mixes, many-sibling documents (up to 700 arrays/objects). Oracle: accepted iff the independent RFC 8259 parser (Ref/Rfc8259.lean) accepts, depth <= 256 and no conflicting duplicate member names. Non-trivial = text with a container or an error.",
         "assumptions": ["logos' matching discipline (longest match, keyword priority, one-character error tokens) is modelled from observation"],
-        "level_text": "The whole text layer is modelled (logos token set, string scanner and check_string, nesting counter, the lelwel recovering LL(1) parser with its open/close bookkeeping, parse_cst, the entry points) and compared with the real code on ~600k texts per run including exact error ranges; acceptance is compared with an independent RFC 8259 parser on every text. Theorems proved so far are listed in the evidence; the full equivalence accept ⇔ RFC grammar is not yet a theorem (see DESIGN).",
-        "level_note": "Trusted: Lean kernel; models of lexer.rs / generated.rs / shape/mod.rs / lib.rs (differential testing, exhaustive at small scope); Ref/Rfc8259.lean is the specification of the JSON language.",
+        "level_text": "accepted_is_json is a Lean theorem over all strings: whatever from_str accepts is an RFC 8259 text (lexemes valid per the RFC's number and string rules, token sequence derivable in the RFC's grammar), within the 256 bracket bound, and its shape is inferDoc of the derived document. It is proved about the full model of the text layer (logos token set with check_string, the lelwel recovering LL(1) parser with its error recovery and open/close bookkeeping, parse_cst, reject_diagnostics), which is compared with the real code on ~600k texts per run including exact error ranges. The converse (every such text is accepted) is tested against an independent RFC parser on every text, not proved.",
+        "level_note": "Trusted: Lean kernel; models of lexer.rs / generated.rs / shape/mod.rs / lib.rs (differential testing, exhaustive at small scope); Ref/JsonText.lean + Ref/TokenGrammar.lean + Rfc.number/Rfc.stringBody are the specification of the JSON language for the theorem, Ref/Rfc8259.lean's parser for the oracle.",
     },
     "C05": {
         "module": "ShapeVerif.Props.C05",
